@@ -38,7 +38,10 @@ var targets = map[string][]string{
 		"treeStorage.Close", "treeStorage.cancelDeletion"},
 	"tree.go": {"TreeMarshal.MakeTree+cond", "TreeMarshal.MakeTreeFromList+cond", "Tree.MakeTreeMarshal", "TreeMarshalCopyTree",
 		"NewTree", "NewTreeNode", "NewRoster+cond", "Roster.GenerateBigNaryTree+cond", "Roster.GenerateNaryTreeWithRoot+cond",
-		"Roster.GenerateNaryTree", "Roster.GenerateBinaryTree", "Roster.GenerateStar"},
+		"Roster.GenerateNaryTree", "Roster.GenerateBinaryTree", "Roster.GenerateStar",
+		"Roster.GetID", "Roster.Concat+cond", "Roster.NewRosterWithRoot+cond", "Roster.RandomSubset+cond",
+		"Tree.computeSubtreeAggregate+cond", "NewTreeFromMarshal+cond", "Tree.BinaryUnmarshaler+cond"},
+	"local.go": {"LocalTest.GenTree", "LocalTest.GenBigTree+cond", "LocalTest.GenRosterFromHost"},
 	"messages.go": {"Token.ID", "Token.Clone", "Token.ChangeTreeNodeID"},
 	"context.go": {"Context.SendRaw", "Context.Save", "Context.Load", "Context.LoadRaw", "Context.LoadVersion", "Context.SaveVersion",
 		"Context.GetAdditionalBucket", "Context.SetValidPeers", "Context.GetValidPeers", "Context.NewPeerSetID"},
